@@ -330,6 +330,16 @@ theorem q0_cancelFound (st : St) (a : Nat) (w : Watch) (l : List Nat) : Q0 st (c
   exact ((((q0_setListOf st _ _).trans (q0_cancelNotify _ _ _)).trans (q0_cancelHook _ _ _)).trans (q0_free _ _)).trans
     (q0_cancelRest _ _)
 
+theorem q0_cancelDetached (st : St) (a : Nat) : Q0 st (cancelDetached st a) := by
+  unfold cancelDetached
+  exact (q0_cancelNotify st a _).trans (q0_setW _ a _ rfl rfl (Or.inr rfl) (fun h => h))
+
+theorem q0_laterPre (st : St) (a : Nat) : Q0 st (laterPre st a) := by
+  unfold laterPre
+  split
+  · exact q0_setW _ a _ rfl rfl (Or.inl rfl) (fun h => h)
+  · exact Q0.refl _
+
 theorem q0_watchCancel (st : St) (a : Nat) : Q0 st (watchCancel st a) := by
   unfold watchCancel
   split
@@ -341,7 +351,9 @@ theorem q0_watchCancel (st : St) (a : Nat) : Q0 st (watchCancel st a) := by
       · split
         · exact q0_fail _ _
         · split
-          · exact Q0.refl st
+          · split
+            · exact q0_cancelDetached st a
+            · exact Q0.refl st
           · exact q0_cancelFound _ _ _ _
 
 /-- `watch->type = WATCH_NONE; free(watch);` -/
@@ -1051,6 +1063,22 @@ theorem r2_cancelFound (st : St) (a : Nat)
   rw [live_cancelRest]
   exact dead_after_free s3 x (isOk_cancelRest _ _ hok)
 
+/-- Overwriting a watch without touching `freed`: nobody becomes live or dead. -/
+theorem r2_setW_keep (E : List Nat) (st : St) (a : Nat) (w : Watch) (h1 : w.slot = (st.getW a).slot) (h2 : w.puser = (st.getW a).puser)
+    (h3 : w.type = (st.getW a).type ∨ w.type = .none) (h4 : w.freed = (st.getW a).freed) : R2 E st (st.setW a w) :=
+  R2.of_mh (mh_setW st a w h1 h2 h3 (fun h => by rw [← h4]; exact h)) (St.length_setW _ _ _)
+    (fun x hx hl => by rw [live_setW_same st a w h4 x hx]; exact hl) rfl rfl rfl rfl
+
+theorem r2_cancelDetached (E : List Nat) (st : St) (a : Nat) : R2 E st (cancelDetached st a) := by
+  unfold cancelDetached
+  exact (r2_cancelNotify E st a _).trans (r2_setW_keep E _ a _ rfl rfl (Or.inr rfl) rfl)
+
+theorem r2_laterPre (E : List Nat) (st : St) (a : Nat) : R2 E st (laterPre st a) := by
+  unfold laterPre
+  split
+  · exact r2_setW_keep E _ a _ rfl rfl (Or.inl rfl) rfl
+  · exact R2.refl _ _
+
 theorem r2_watchCancel (E : List Nat) (st : St) (a : Nat)
     (ha : isOneShot (st.getW a).type = false ∨ (st.getW a).slot ∈ st.cancelReq) : R2 E st (watchCancel st a) := by
   unfold watchCancel
@@ -1063,7 +1091,9 @@ theorem r2_watchCancel (E : List Nat) (st : St) (a : Nat)
       · split
         · exact r2_fail _ _ _
         · split
-          · exact R2.refl _ st
+          · split
+            · exact r2_cancelDetached E st a
+            · exact R2.refl _ st
           · exact (r2_cancelFound st a ha).mono (fun x hx => by cases hx)
 
 /-- `watch->type = WATCH_NONE; free(watch);` — the freed watch has no type any more. -/
